@@ -150,7 +150,7 @@ defjvp(
 
 # ----- Trickier grads -----
 defjvp(anp.kron, "same", "same")
-defjvp(anp.diff, "same")
+defjvp(anp.diff, lambda g, ans, a, n=1, axis=-1: anp.diff(g, n, axis))
 defjvp(anp.gradient, "same")
 defjvp(anp.repeat, "same")
 defjvp(anp.tile, "same")
